@@ -33,7 +33,7 @@ pub fn standard_table(flags: ClvmFlags) -> HashMap<String, Vec<u8>> {
 }
 
 pub fn run(ctx: &mut Ctx) {
-    let n = ctx.n(300_000, 40_000_000);
+    let n = ctx.n(2_000_000, 60_000_000);
     random_cases!(ctx, n, |r, _i| {
         let flags = gen_flags(
             &mut r,
